@@ -66,8 +66,12 @@ def showW : W → String
 
 def showUnit (u : Crash.Unit) : String :=
   let d := match u.db with | .C => "C" | .S => "S"
-  let k := match u.kind with | .set => "set" | .del => "del" | .tx => "tx" | .bulk => "bulk"
+  let k := match u.kind with | .set => "tx" | .del => "tx" | .tx => "tx" | .bulk => "bulk"
   s!"{d}.{k}[{",".intercalate (u.ops.map showW)}]"
+
+/-- Units that write nothing are not durable writes: dropped from the journal and from the answers (the harness
+does the same with the real journal). -/
+def durable (us : List Crash.Unit) : List Crash.Unit := us.filter (fun u => !u.ops.isEmpty)
 
 def showUnits (us : List Crash.Unit) : String :=
   if us.isEmpty then "-" else "|".intercalate (us.map showUnit)
@@ -102,10 +106,12 @@ def pTxs (s : String) : Option (List Nat) :=
 def doRestart (s : Sess) (D : Store) : Sess × String × List Crash.Unit :=
   match initChainDB D with
   | .error e => (s, s!"boot={showErr e} init=-", [])
-  | .ok (D1, best, us1) =>
+  | .ok (D1, best, us1') =>
+    let us1 := durable us1'
     match recover ⟨D1, best, best.root, []⟩ with
     | .error e => (s, s!"boot=ok init={showUnits us1} rec={showErr e} recunits=-", us1)
-    | .ok (N, us2) =>
+    | .ok (N, us2') =>
+      let us2 := durable us2'
       ({ s with node := N, recording := false },
        s!"boot=ok init={showUnits us1} rec=ok recunits={showUnits us2} best={N.best.id} root={N.sdbRoot}", us1 ++ us2)
 
@@ -114,7 +120,8 @@ def doFeed (s : Sess) (isBad : Bool) (i p n r t : String) : Sess × String :=
   | some i, some p, some n, some r, some t =>
     let b : Block := ⟨i, p, n, r, t⟩
     let bad := if isBad then i :: s.bad else s.bad
-    let (N, res, us) := feedB (fun x => bad.contains x) s.node b
+    let (N, res, us0) := feedB (fun x => bad.contains x) s.node b
+    let us := durable us0
     let s' := { s with blocks := insBlock b s.blocks, txs := t.foldl (fun a x => insNat x a) s.txs,
                        roots := insNat r s.roots, node := N, bad := bad,
                        J := if s.recording then s.J ++ us else s.J }
